@@ -145,10 +145,11 @@ def render(t, ere):
 
 
 def unbounded_depth(t):
-    """nesting depth of repetitions that can iterate more than twice over a non-atomic body"""
+    """nesting depth of repetitions that can iterate more than twice over a non-atomic body
+    (the back-tracking matcher explores every split of the subject among the iterations)"""
     k = t[0]
     sub = max([unbounded_depth(x) for x in t[1:] if isinstance(x, tuple)] or [0])
-    if k == "rep" and (t[3] is None or t[3] > 2):
+    if k == "rep" and (t[3] is None or t[3] > 2) and t[1][0] not in ("c", ".", "cls"):
         return sub + 1
     return sub
 
@@ -438,14 +439,11 @@ class Runner:
                     break
             return out
 
-        def one(part):
-            return side(self.hcmd, part, "CRASH"), side(self.dcmd, part, "MODEL-CRASH")
-        with concurrent.futures.ThreadPoolExecutor(max_workers=n) as ex:
-            res = list(ex.map(one, parts))
-        c_all, m_all = [], []
-        for cl, ml in res:
-            c_all += cl
-            m_all += ml
+        with concurrent.futures.ThreadPoolExecutor(max_workers=NPROC) as ex:
+            fc = [ex.submit(side, self.hcmd, part, "CRASH") for part in parts]
+            fm = [ex.submit(side, self.dcmd, part, "MODEL-CRASH") for part in parts]
+            c_all = [l for f in fc for l in f.result()]
+            m_all = [l for f in fm for l in f.result()]
         return c_all, m_all
 
     def single(self, line):
@@ -836,7 +834,7 @@ def run(ck):
             for cf in (ICASE, ICASE | NEWLINE, ICASE | NOSUB, ICASE | NEWLINE | NOSUB):
                 lines.append(xline(base | cf, pat, [1], [0, 48] if anchored else [0], small if r8 else subs[2]))
     ck.cov["exhaustive"]["patterns_rendered"] = npat
-    for ch in vf.chunks(lines, 16 * 600):
+    for ch in vf.chunks(lines, 16 * 1500):
         rn.run_x(ch, "exhaustive")
 
     # ---- ICASE slice: letters in both cases, exhaustive small
@@ -864,7 +862,7 @@ def run(ck):
         if not pat:
             continue
         d = unbounded_depth(t)
-        cap = 40 if d <= 1 else (10 if d == 2 else 7)
+        cap = 40 if d == 0 else (12 if d == 1 else 7)
         cf = rng.below(16) & ~EXT | (EXT if ere else 0)
         ss = [rand_subject(rng, cap) for _ in range(12)]
         lines.append(xline(cf, pat, [0, 1, "n", "m"], [0, 16, 32, 48], ss))
